@@ -513,7 +513,11 @@ static bool in_child(const std::function<std::string()>& body, std::string& resu
     if (pid == 0) {
         ::close(fds[0]);
         g_child_fd = fds[1];
-        ::alarm(300);
+        {
+            // per-run watchdog: a plan executes in well under a second; a library call that never returns is a hang
+            const char* w = std::getenv("TEAKSIM_WATCHDOG_S");
+            ::alarm(w ? (unsigned)std::atoi(w) : 30);
+        }
         std::string r = body();
         const char* p = r.data();
         std::size_t n = r.size();
